@@ -14,13 +14,13 @@ RULE = ("E2: a seeded online generator drives the real Workflow + Scheduler (in-
         "finalize protocols (rejected requests, crashes, detached-but-running steps, identical re-declaration = full "
         "recycle, outputs reproduced identically, a directed scenario: succeed - made pending - dispatched - detached in "
         "flight by the creator's rerun - completes - re-declared, volatile output renamed while a new step consumes the old "
-        "path); after every transaction the canonical dump (nodes with creator and detached flag, file rows, step rows, "
+        "path; families of 2-3 steps with producer/consumer chains that are detached by the rerun of their creator and declared again in varying order with changed input/output lists drawn from the files of the family, amend_step with inputs among the outputs of detached downstream steps); after every transaction the canonical dump (nodes with creator and detached flag, file rows, step rows, "
         "dependency edges with dynamic flag, step_hash rows, env_var rows) and the outcome class (ok / usage error / "
         "internal error or non-terminating statement) are compared with the Gallina model evaluated inside Coq; inv_b, "
         "inv_full_b (I4, I5c), inv_succeeded_b, inv_running_nohash_b, inv_treefile_b (T1) and the protocol predicate protocol_ok_run_t are "
         "evaluated on every prefix; the tree-ownership oracle (non-nested attached trees, attached files under an attached tree are its STATIC files) runs on every dump of the real database; fixed witness traces of the findings D16, D31, D33 and of the hold protocol, and the D17 "
         "scenario through the real Executor.run_hash_job, are replayed on every run; the real Trellis/Workflow consistency "
-        "check runs in strict mode at the end of every trace. A transaction is non-trivial when it changed the dump or was "
+        "check runs in strict mode at the end of every trace; an independent DFS over all dependency rows of every dump checks acyclicity. A transaction is non-trivial when it changed the dump or was "
         "rejected; distinct by (operation, resulting dump)")
 TRUSTED_BASE = [
     "Coq 8.16.1 kernel; vm_compute in Examples/witnesses and in the correspondence evaluation; no native_compute",
@@ -216,6 +216,9 @@ def tree_ownership_violation(d):
     return None
 
 
+dependency_cycle = e2.dependency_cycle
+
+
 async def _run_fixed(ops):
     """Drive the real implementation through a fixed operation list (dispatch through the real
     Scheduler.pop_next_job); returns the recorded trace or None when a dispatch deviates."""
@@ -297,6 +300,12 @@ def oracle(ctx):
             continue
         for j, (op, oc, detail, d) in enumerate(tr):
             ctx.case(("fixed", name, j), nontrivial=True)
+            cyc = dependency_cycle(d)
+            if cyc:
+                ctx.add_failure("oracle", "dependency-cycle", "oracle:dependency-cycle",
+                                f"fixed witness '{name}': after transaction {j} ({op}) the dependency rows contain the cycle {cyc}",
+                                witness={"ops": [list(map(str, t[:2])) for t in tr[: j + 1]]})
+                break
             viol = tree_ownership_violation(d)
             if viol:
                 ctx.add_failure("oracle", "tree-ownership", f"oracle:tree-ownership:{viol[0]}",
@@ -314,6 +323,12 @@ def oracle(ctx):
                             f"Trellis/Workflow._check_consistency (strict) failed after trace {i}: {strict}",
                             witness={"ops": [list(map(str, t[:2])) for t in tr]})
         for j, (op, oc, detail, d) in enumerate(tr):
+            cyc = dependency_cycle(d)
+            if cyc:
+                ctx.add_failure("oracle", "dependency-cycle", "oracle:dependency-cycle",
+                                f"trace {i}, after transaction {j} ({op}) the dependency rows contain the cycle {cyc}",
+                                witness={"ops": [list(map(str, t[:3])) for t in tr[: j + 1]]})
+                break
             viol = tree_ownership_violation(d)
             if viol:
                 ctx.add_failure("oracle", "tree-ownership", f"oracle:tree-ownership:{viol[0]}",
